@@ -1333,6 +1333,11 @@ def v10(e: Engine, rep: Report):
                     isinstance(c.func.value, ast.Attribute) and
                     c.func.value.attr == 'path'):
                 continue
+            if any(isinstance(y, ast.Call) and
+                   isinstance(y.func, ast.Attribute) and
+                   y.func.attr in ('match', 'fullmatch')
+                   for y in walk_own(f.node)):
+                continue       # the text was put to a pattern first
             n += 1
             rep.evaluations += 1
             rep.functions.add(f.qname)
